@@ -120,35 +120,42 @@ class Field:
         ), f"must be a ({Ndof},) array but is a {values.shape} array."
         self.__dofsValues = values
 
+    __array_priority__ = 100.0
+    """makes ``ndarray <op> field`` defer to the reflected operators below: left to itself
+    numpy treats the field as an object scalar, loops over the array's items and returns an
+    object array of fields"""
+
+    # Every operator evaluates the field and applies the FeArray operator with the operands
+    # in the order they were written: ``c - field`` is ``c - field()``, not ``field() - c``.
     def __mul__(self, other) -> FeArray.FeArrayALike:
         return self() * other
 
     def __rmul__(self, other) -> FeArray.FeArrayALike:
-        return self.__mul__(other)
+        return other * self()
 
     def __matmul__(self, other) -> FeArray.FeArrayALike:
         return self() @ other
 
     def __rmatmul__(self, other) -> FeArray.FeArrayALike:
-        return self.__matmul__(other)
+        return other @ self()
 
     def __add__(self, other) -> FeArray.FeArrayALike:
         return self() + other
 
     def __radd__(self, other) -> FeArray.FeArrayALike:
-        return self.__add__(other)
+        return other + self()
 
     def __sub__(self, other) -> FeArray.FeArrayALike:
         return self() - other
 
     def __rsub__(self, other) -> FeArray.FeArrayALike:
-        return self.__sub__(other)
+        return other - self()
 
     def __truediv__(self, other) -> FeArray.FeArrayALike:
         return self() / other
 
     def __rtruediv__(self, other) -> FeArray.FeArrayALike:
-        return self.__truediv__(other)
+        return other / self()
 
     def __call__(self) -> FeArray.FeArrayALike:
         """Returns the field as a finite element array."""
